@@ -30,4 +30,8 @@ def obligations(tier):
     for p in range(8):
         obls.append(CH("all_classes_slots_junk_p%d" % p, H, "table_junk", t, mode="E1s", functions=F, env={"VERIF_PART": str(p)},
                        bounds="cases with index %% 8 == %d of (class, slot/nested site) x 19 junk values + deletion x allow_custom" % p))
+    if tier == "thorough":
+        for p in range(8):
+            obls.append(CH("two_corruptions_p%d" % p, H, "table_junk_pairs", t * 2, mode="E1s", functions=F, env={"VERIF_PART": str(p)},
+                           bounds="cases with index %% 8 == %d x 10 second corruptions (extensions, granular_markings, custom_properties, spec_version, id, ...) x 26 junk values x allow_custom" % p))
     return obls
